@@ -108,4 +108,9 @@ example : (Impl.X86.u32x4 false false).insert 0x0f0e0d0c0b0a09080706050403020100
 /-- AVX2 `transpose4`: output 1 collects lane 1 of the four inputs -/
 example : (Impl.Avx2.transpose4 (BitVec.ofNat 512 (2 ^ 128)) 0 0 0).2.1 = 1#512 := by decide +kernel
 
+/-- **Source tie, portable backend (data movement).**  `extract` / `insert`, `to_lanes` / `from_lanes`, `StoreBytes`,
+    `transpose4`, `to_scalars` and the storage conversions of `generic.rs` / `soft.rs`, regenerated from the current
+    source, equal the hand-written model (fields of `CC.Src.PortMovement`, lean/CC/Simd/SrcPort.lean). -/
+theorem source_portable_match : CC.Src.PortMovement := CC.Src.portMovement
+
 end CC.Thm.C13
